@@ -75,6 +75,7 @@ class Ctx:
         ext.update(externals or {})
         it = e10.Interp(self.nodes, ext)
         it.chain = list(chain)
+        it.generic_functions = True     # a_k(x) is generically non-zero; exactly-zero coefficients are explored as literals
         return it
 
     def run(self, name, kw, externals=None, chain=()):
@@ -119,12 +120,26 @@ def rule_t1(rep, cx):
     if len(ps) != 3:
         raise AnalysisError("unrecognised signature of _transform_ode_from_derivs")
     n = 0
+    undecided = []
+    # coefficient configurations: callables, non-zero constants, and constants some of which are exactly zero
+    # (the radial Poisson equation has no first-derivative term)
     for K in ORDERS:
-        for const in (False, True):
+        patterns = [("callable", None), ("constant", None)]
+        for mask in range(1, 2 ** max(K - 1, 0)):
+            zeros = [k for k in range(1, K) if mask >> (k - 1) & 1]
+            patterns.append(("constant", zeros))
+        for kind, zeros in patterns:
+            const = kind == "constant"
             X = e10.arr([sp.Symbol("X0"), sp.Symbol("X1")])
-            coeffs = [sp.Symbol(f"c{k}") if const else e10.Fn(f"A{k}") for k in range(K + 1)]
+            coeffs = [(0 if (zeros and k in zeros) else sp.Symbol(f"c{k}", positive=True)) if const else e10.Fn(f"A{k}")
+                      for k in range(K + 1)]
             derivs = [e10.Fn("G1"), e10.Fn("G2"), e10.Fn("G3")]
-            out = cx.run("_transform_ode_from_derivs", {ps[0]: coeffs, ps[1]: derivs, ps[2]: X})
+            label = f"order {K}, {kind} coefficients" + (f", a_{zeros} exactly zero" if zeros else "")
+            try:
+                out = cx.run("_transform_ode_from_derivs", {ps[0]: coeffs, ps[1]: derivs, ps[2]: X})
+            except AnalysisError as e:
+                undecided.append(f"{label}: {e}")
+                continue
             if not hasattr(out, "shape") or out.shape != (K + 1, 2):
                 rep.violation("T1.faa-di-bruno-coefficients", "ode._transform_ode_from_derivs", f"order {K}",
                               f"for an ODE of order {K} on two points the result has shape "
@@ -132,7 +147,7 @@ def rule_t1(rep, cx):
                 continue
             for p_ in range(2):
                 x = X[p_]
-                av = [coeffs[k] if const else sp.Function(f"A{k}")(x) for k in range(K + 1)]
+                av = [sp.sympify(coeffs[k]) if const else sp.Function(f"A{k}")(x) for k in range(K + 1)]
                 gv = [sp.Function(f"G{i}")(x) for i in (1, 2, 3)]
                 ref, _, _, _ = _reference(K, av, gv)
                 for j in range(K + 1):
@@ -140,12 +155,14 @@ def rule_t1(rep, cx):
                     if _zero(out[j, p_] - ref[j]):
                         continue
                     rep.violation("T1.faa-di-bruno-coefficients", "ode._transform_ode_from_derivs", f"b[{j}]",
-                                  f"order {K}: the coefficient of d^{j}y/dr^{j} in the transformed ODE is "
+                                  f"{label}: the coefficient of d^{j}y/dr^{j} in the transformed ODE is "
                                   f"`{_show(out[j, p_])}` but the chain rule gives `{_show(ref[j])}` "
-                                  f"(a_k: coefficients, G_i: i-th derivative of the transformation)",
+                                  f"(a_k / c_k: coefficients, G_i: i-th derivative of the transformation)",
                                   cx.loc("_transform_ode_from_derivs"))
-            rep.ok("T1.faa-di-bruno-coefficients", f"_transform_ode_from_derivs[order {K}, {'constant' if const else 'callable'} coefficients]",
-                   cx.loc("_transform_ode_from_derivs"), "b_j = sum_k a_k B_(k,j)(g', g'', g''') for j = 0.." + str(K))
+            rep.ok("T1.faa-di-bruno-coefficients", f"_transform_ode_from_derivs[{label}]",
+                   cx.loc("_transform_ode_from_derivs"), "b_j = sum_k a_k B_(k,j)(g1, g2, g3) for j = 0.." + str(K))
+    if undecided and not rep.violations:
+        raise AnalysisError("; ".join(undecided[:2]))
     rep.floor("T1 entries compared", n, 2 * 2 * (2 + 3 + 4))
     # the wrapper feeds the three derivative methods of the transformation, in order
     w = cx.nodes.get("_transform_ode_from_rtransform")
